@@ -26,6 +26,13 @@ def vmap(fun, in_axes=0, out_axes=0):
         sizes = {leaf.shape[0] for leaf in leaves if isinstance(leaf, np.ndarray) and leaf.ndim > 0}
         assert len(sizes) == 1, f"inconsistent mapped axis sizes {sizes}"
         (n, ) = sizes
+        if n == 0:
+            # empty mapped axis (e.g. a product with a 0-column operand): like jax, return empty outputs with the
+            # structure and trailing shape that one call on a zero slice produces
+            sl = [np.zeros(leaf.shape[1:], dtype=leaf.dtype) if isinstance(leaf, np.ndarray) and leaf.ndim > 0 else leaf for leaf in leaves]
+            probe = fun(*optree.tree_unflatten(treedef, sl))
+            pl, pdef = _flatten(probe)
+            return optree.tree_unflatten(pdef, [np.zeros((0, ) + np.asarray(x).shape, dtype=np.asarray(x).dtype) for x in pl])
         outs = []
         for i in range(n):
             sl = [leaf[i] if isinstance(leaf, np.ndarray) and leaf.ndim > 0 else leaf for leaf in leaves]
